@@ -50,47 +50,68 @@ def run(res, tier, br, model_ok=True, search=False):
     big = tier == "thorough" or search
     progs = families.programs(rng, 120 if big else 24, kinds=("c", "c", "h"))
     hits = collections.Counter()
-    per_op = 12 if big else 2
     cli_cases = []
+    def site_class(p, site, text):
+        """coarse class of an edit site: the class string the operator attaches to it (if any) and the character
+        classes around the first place where the edited text differs from the original"""
+        cls = next((x for x in site if isinstance(x, str)), "")
+        a, b = p.text, text
+        i = 0
+        n = min(len(a), len(b))
+        while i < n and a[i] == b[i]:
+            i += 1
+        ctx = a[max(0, i - 2): i + 2]
+        shape = "".join("a" if ch.isalpha() or ch == "_" else "0" if ch.isdigit() else ch for ch in ctx)
+        return cls + "|" + shape
+
     for op in mutate.OPERATORS:
-        done = 0
+        groups = collections.defaultdict(list)
         order = list(progs)
         rng.shuffle(order)
+        seen = 0
         for p in order:
-            if done >= per_op:
-                break
             try:
                 sites = op.sites(p)
             except Exception:
                 sites = []
-            if not sites:
-                continue
-            for site in rng.sample(sites, min(len(sites), 2 if big else 1)):
+            for site in sites[:40]:
                 try:
                     text, line = op.apply(p, site)
                 except Exception:
                     continue
-                r = pipeline(p.name, text)
-                res.count("catalogue", 1)
-                res.nontriv((op.id, text))
-                done += 1
-                hits[op.id] += 1
-                codes = op.code if isinstance(op.code, (tuple, list, set)) else (op.code,)
-                rp = {"kind": "violation", "name": p.name, "src": text, "operator": op.id, "codes": list(codes), "line": line}
-                if r["outcome"] not in ("ok",):
-                    if r["outcome"] == "fatal":
-                        res.report(f"violation:{op.id}:fatal", f"{op.id} on {p.name} line {line}: fatal {r.get('msg')} instead of {codes}", rp)
-                    else:
-                        res.report(r["outcome"], f"{op.id} on {p.name}: {r['outcome']}", rp)
-                    continue
-                found = any(d[0] in codes and d[3] and d[3][0][0] == line for d in r["diags"])
-                if not found:
-                    near = [(d[0], d[3][0][0]) for d in r["diags"] if d[3] and abs(d[3][0][0] - line) <= 1]
-                    res.report(f"violation:{op.id}:missing", f"{op.id} on {p.name}: {list(codes)} not reported on line {line}; nearby {near[:5]}", rp)
-                elif r["status"] != "Error":
-                    res.report(f"violation:{op.id}:status", f"{op.id} on {p.name}: code reported but status {r['status']}", rp)
-                elif len(cli_cases) < (10 if big else 3) and rng.random() < 0.1:
-                    cli_cases.append((p.name, text))
+                groups[site_class(p, site, text)].append((p, site, text, line))
+                seen += 1
+            if seen > (400 if big else 120):
+                break
+        chosen = []
+        for key in sorted(groups):
+            lst = groups[key]
+            rng.shuffle(lst)
+            chosen += lst[: (3 if big else 1)]
+        rng.shuffle(chosen)
+        for p, site, text, line in chosen[: (40 if big else 8)]:
+            if True:
+                if True:
+                    r = pipeline(p.name, text)
+                    res.count("catalogue", 1)
+                    res.nontriv((op.id, text))
+                    hits[op.id] += 1
+                    codes = op.code if isinstance(op.code, (tuple, list, set)) else (op.code,)
+                    rp = {"kind": "violation", "name": p.name, "src": text, "operator": op.id, "codes": list(codes), "line": line}
+                    if r["outcome"] not in ("ok",):
+                        if r["outcome"] == "fatal":
+                            res.report(f"violation:{op.id}:fatal", f"{op.id} on {p.name} line {line}: fatal {r.get('msg')} instead of {codes}", rp)
+                        else:
+                            res.report(r["outcome"], f"{op.id} on {p.name}: {r['outcome']}", rp)
+                        continue
+                    found = any(d[0] in codes and d[3] and d[3][0][0] == line for d in r["diags"])
+                    if not found:
+                        near = [(d[0], d[3][0][0]) for d in r["diags"] if d[3] and abs(d[3][0][0] - line) <= 1]
+                        res.report(f"violation:{op.id}:missing", f"{op.id} on {p.name}: {list(codes)} not reported on line {line} ({text.split(chr(10))[line - 1].strip()!r}); nearby {near[:5]}", rp)
+                    elif r["status"] != "Error":
+                        res.report(f"violation:{op.id}:status", f"{op.id} on {p.name}: code reported but status {r['status']}", rp)
+                    elif len(cli_cases) < (10 if big else 3) and rng.random() < 0.05:
+                        cli_cases.append((p.name, text))
     for name, text, code, line in families.extra_violating():
         r = pipeline(name, text)
         res.count("catalogue.wrapped", 1)
